@@ -13,6 +13,7 @@ import Rsp.Spec.Radmsg
 import Rsp.Model.DynRealm
 import Rsp.Spec.Cert
 import Rsp.Model.Stream
+import Rsp.Spec.Emit
 
 namespace Drive
 open Rsp
@@ -499,6 +500,16 @@ def model (op : String) (args : List String) : String :=
     match st.toNat? with
     | some st => s!"st={Choose.connectStart st} ret=0"
     | none => "bad-op"
+  | "dynconf", [tsec, id, _, dsec] =>
+    match ofHex tsec, ofHex id, parseOptTok dsec with
+    | some tsec, some id, some dsec =>
+      if (DynRealm.dynRealmOf (cstr id)).isNone then "none" else
+      let sec := dsec.getD tsec
+      let pkt := match Radmsg.serialize realHashes { code := 4, id := 1, auth := Radmsg.zeros 16, attrs := [] } (some sec) with
+        | .ok b _ => toHex b
+        | _ => "-"
+      s!"secret:{toHex sec} len={sec.length} pkt:{pkt}"
+    | _, _, _ => "bad-op"
   | "addreq", [_, a, pa, b, pb] =>
     match ofHex a, pa.toNat?, ofHex b, pb.toNat? with
     | some a, some pa, some b, some pb => if Addr.addrEqual a pa b pb then "1" else "0"
@@ -583,6 +594,22 @@ def spec (op : String) (args impl : List String) : String :=
     match ofHex a, ofHex b, len.toNat? with
     | some a, some b, some len =>
       if (Spec.leadingBitsEq a b len) == (r == "1") && (r == "1" || r == "0") then "ok" else "bad prefix-bits"
+    | _, _, _ => "bad-op"
+  | "dynconf", [tsec, id, _, dsec], impl =>
+    match ofHex tsec, ofHex id, parseOptTok dsec with
+    | some tsec, some id, some dsec =>
+      if impl.any (·.startsWith "crash") then "bad sanitizer-or-crash" else
+      if impl == ["none"] then (if (DynRealm.dynRealmOf (cstr id)).isNone then "ok" else "bad C20:no-lookup-for-an-acceptable-realm") else
+      let sec := dsec.getD tsec
+      -- C06: what is sent to a discovered server is authenticated under THAT server's secret — all of it, nothing but it
+      (match impl with
+       | [s, l, p] =>
+         if s != "secret:" ++ toHex sec then "bad C06:discovered-server-does-not-use-the-secret-its-block-sets"
+         else if l != s!"len={sec.length}" then "bad C06:secret-of-a-discovered-server-used-with-the-length-of-another-secret"
+         else (match ofHex (p.drop 4).toString with
+           | some b => if Spec.requestOk realHashes sec b then "ok" else "bad C06:request-to-a-discovered-server-not-authenticated-under-its-secret"
+           | none => "bad C06:request-to-a-discovered-server-could-not-be-built")
+       | _ => "bad output-shape")
     | _, _, _ => "bad-op"
   | "connstate", [_, st, _], [r, _] =>
     match st.toNat? with
